@@ -51,3 +51,39 @@ Theorem C11_pop_in_yywrap_resumes : forall p ln m a b t fuel,
   bget (m_bufs (pop_state m)) b = bget (m_bufs m) b.
 Proof. exact wrap_pop_resumes. Qed.
 Print Assumptions C11_pop_in_yywrap_resumes.
+
+(** ** the buffer stack as an array with a capacity (coq/StackGrow.v) *)
+Require FlexV.StackGrow.
+
+(** for EVERY history of pushes and pops the index of the current buffer stays inside the allocated array,
+    every slot above it is empty and every slot below it holds a buffer *)
+Theorem C11_stack_index_inside_the_array : forall ops s, FlexV.StackGrow.KInv s ->
+  Forall (fun o => match o with FlexV.StackGrow.KPush b => b <> 0 | FlexV.StackGrow.KPop => True end) ops ->
+  FlexV.StackGrow.KInv (fold_left FlexV.StackGrow.kstep ops s).
+Proof. exact FlexV.StackGrow.history_inv. Qed.
+Print Assumptions C11_stack_index_inside_the_array.
+
+Theorem C11_empty_stack_is_well_formed : FlexV.StackGrow.KInv FlexV.StackGrow.bs_init.
+Proof. exact FlexV.StackGrow.init_inv. Qed.
+Print Assumptions C11_empty_stack_is_well_formed.
+
+(** a push makes the pushed buffer current, inside the array *)
+Theorem C11_push_makes_current : forall s b, FlexV.StackGrow.KInv s -> b <> 0 ->
+  FlexV.StackGrow.KInv (FlexV.StackGrow.push s b) /\
+  FlexV.StackGrow.k_top (FlexV.StackGrow.push s b) < FlexV.StackGrow.k_max (FlexV.StackGrow.push s b) /\
+  FlexV.StackGrow.current (FlexV.StackGrow.push s b) = b.
+Proof. exact FlexV.StackGrow.push_inv. Qed.
+Print Assumptions C11_push_makes_current.
+
+(** popping returns to the buffer pushed before, at whatever depth (growth of the array included) *)
+Theorem C11_pop_returns_to_the_buffer_below : forall s b, FlexV.StackGrow.KInv s -> b <> 0 -> FlexV.StackGrow.current s <> 0 ->
+  FlexV.StackGrow.k_top (FlexV.StackGrow.pop (FlexV.StackGrow.push s b)) = FlexV.StackGrow.k_top s /\
+  FlexV.StackGrow.current (FlexV.StackGrow.pop (FlexV.StackGrow.push s b)) = FlexV.StackGrow.current s.
+Proof. exact FlexV.StackGrow.pop_push. Qed.
+Print Assumptions C11_pop_returns_to_the_buffer_below.
+
+(** refinement: on the list of stacked buffers (current first) a push is a cons *)
+Theorem C11_push_is_cons : forall s b, FlexV.StackGrow.KInv s -> b <> 0 ->
+  FlexV.StackGrow.as_list (FlexV.StackGrow.push s b) = b :: FlexV.StackGrow.as_list s.
+Proof. exact FlexV.StackGrow.push_is_cons. Qed.
+Print Assumptions C11_push_is_cons.
